@@ -11,7 +11,8 @@ class SPEC:
             "AddRecordWithExtraElements(k), AddRecordV2 with element lists drawn from the registry (well-typed values; empty values "
             "for template records), UpdateLenInHeader, ResetSet, observe}. Each sequence is run (a) on a long-lived set with a random "
             "prefix before a reset, (b) on a brand-new set, (c) with every add replaced by each of the other two add paths; all must "
-            "give the same observations (type, length, header, record buffers, CreateIPFIXMsg bytes); the list of records taken out of the "
+            "give the same observations (type, length, header, record buffers, CreateIPFIXMsg bytes); a prepare with set type Undefined "
+            "(refused) may come anywhere in a sequence and must change nothing - such cases are run again without it and compared; the list of records taken out of the "
             "set (GetRecords) right before a reset is kept by the harness and must read the same at every later observation (a new set "
             "shares nothing with the old message, so a reset one must not either). Non-trivial = at least one reset "
             "followed by adds; distinct by hash.")
@@ -66,8 +67,11 @@ def body_ops(rng, n, sup):
             ops.append("bld add PATH %d %d %s" % (rng.choice([0, 1, 4]), rng.choice([256, 257, 300]), tok))
         elif r < 0.65:
             ops.append("bld upd")
-        elif r < 0.85:
+        elif r < 0.83:
             ops.append("bld obs")
+        elif r < 0.85:
+            # a REFUSED prepare (set type Undefined) in the middle of the work: the set must stay what it was
+            ops.append("bld prep u %d" % rng.choice([256, 257, 2]))
         elif r < 0.93:
             ty = rng.choice("td")
             ops.append("bld prep %s %d" % (ty, rng.choice([256, 257, 300])))
@@ -154,6 +158,20 @@ def run(ctx):
             fails.append({"signature": "C16:add-paths-differ", "ops": cases[p0].ops, "impl": " / ".join(obs_of(p0))[:300] + " // " + " / ".join(obs_of(p2))[:300], "model": "",
                           "predicate": {"name": "add_paths_equiv (implementation vs implementation)", "value": "fails"}})
         i += 5
+    # a REFUSED operation leaves the set as it was: every fresh case that contains refused prepares is run again without
+    # them; the observations must be the same (the property speaks of "any sequence of prepare/add/reset operations":
+    # a refused prepare is not one that took place)
+    withu = [ci for ci, c in enumerate(cases) if c.label == "fresh" and any(o.startswith("bld prep u ") for o in c.ops)]
+    if withu:
+        stripped = [Case([o for o in cases[ci].ops if not o.startswith("bld prep u ")], "fresh-without-refused-prepare", False, True) for ci in withu]
+        impl2 = exec_cases(ctx.harness, stripped, shards=min(8, ctx.cores))
+        for ci, c2, o2 in zip(withu, stripped, impl2):
+            refused_all = all(o == "err" for op, o in zip(cases[ci].ops, impl[ci]) if op.startswith("bld prep u "))
+            obs2 = [o for op, o in zip(c2.ops, o2) if op == "bld obs"]
+            if not refused_all or obs_of(ci) != obs2:
+                fails.append({"signature": "C16:refused-prepare-changed-the-set", "ops": cases[ci].ops, "impl": " / ".join(obs_of(ci))[:300] + " // " + " / ".join(obs2)[:300],
+                              "model": "", "predicate": {"name": "refused_prepare_is_no_operation (implementation vs implementation)", "value": "fails"}})
+        res["distribution"]["fresh cases re-run without their refused prepares"] = len(withu)
     res["predicate_failures"] = fails[:20] + res["predicate_failures"]
     res["notes"].append("reset-vs-new and the three add paths are also compared on the implementation's own observations")
     return res
